@@ -587,6 +587,16 @@ class KEval:
 
     def for_(self, st: ast.For, env, S, f, guards, loops, depth) -> bool:
         it = st.iter
+        if isinstance(it, ast.Name) and it.id in self._locals_of(f):
+            # `offsets = range(a, b)` hoisted out of the loop nest and iterated by name: the loop over that range (the temporary is read through only when nothing it
+            # reads was rebound in between)
+            from . import wire
+            try:
+                it2 = wire.inline_locals(f, it)
+            except Exception:  # noqa
+                it2 = it
+            if isinstance(it2, ast.Call) and isinstance(it2.func, ast.Name) and it2.func.id in ("range", "prange", "enumerate", "zip") and it2.func.id not in env:
+                it = it2
         self.havoc(st.body, env)
         lp = None
         if isinstance(it, ast.Call) and isinstance(it.func, ast.Name) and it.func.id in ("range", "prange") and isinstance(st.target, ast.Name):
